@@ -7,12 +7,15 @@ import (
 )
 
 // No request can stop nsqlookupd answering others: every query endpoint (/nodes, /lookup,
-// /topics, /channels) racing a registration change of a peer (REGISTER / UNREGISTER / the removal
+// /topics, /channels, /debug) racing a registration change of a peer (REGISTER / UNREGISTER / the removal
 // on disconnect all go through the RegistrationDB's write lock) returns, under every interleaving
 // within the preemption bound. The lock model has Go's RWMutex semantics: a writer that has
 // started waiting blocks new readers, so a read lock taken recursively deadlocks when a writer
-// arrives in between.
+// arrives in between. The happens-before race monitor is on (maps count as one location each): an
+// endpoint that walks the registration map without the DB's lock races the writer - in the real
+// runtime "concurrent map iteration and map write" is fatal to the whole process.
 func VerifC15_QueriesVsRegistrationChanges() {
+	verifrt.RaceCheck()
 	l := vLookupd()
 	s := &httpServer{nsqlookupd: l}
 	pi := &PeerInfo{id: "1.2.3.4:5", RemoteAddress: "1.2.3.4:5", Hostname: "h", BroadcastAddress: "h", TCPPort: 4150, HTTPPort: 4151, Version: "1"}
@@ -21,7 +24,7 @@ func VerifC15_QueriesVsRegistrationChanges() {
 		l.DB.AddProducer(Registration{"topic", "t", ""}, &Producer{peerInfo: pi})
 		l.DB.AddProducer(Registration{"channel", "t", "c"}, &Producer{peerInfo: pi})
 	})
-	q := verifrt.Choice("query", 4)
+	q := verifrt.Choice("query", 5)
 	change := verifrt.Choice("change", 2)
 	answered, changed := false, false
 	verifrt.Go("query", func() {
@@ -34,6 +37,8 @@ func VerifC15_QueriesVsRegistrationChanges() {
 			s.doTopics(nil, verifC14Req(""), nil)
 		case 3:
 			s.doChannels(nil, verifC14Req("topic=t"), nil)
+		case 4:
+			s.doDebug(nil, verifC14Req(""), nil)
 		}
 		answered = true
 	})
